@@ -12,7 +12,7 @@ package nsqd
 //@ pred heap(pq inFlightPqueue, n int) := forall k int :: {pq[k]} 0 < k && k < n ==> ord(pq, k)
 // member: m currently sits in the queue (its back-index points at its own slot).
 //@ pred member(pq inFlightPqueue, n int, m *Message) := m != nil && 0 <= m.index && m.index < n && pq[m.index] == m
-//@ pred wfPQ(pq inFlightPqueue) := bidx(pq, len(pq)) && heap(pq, len(pq)) && cap(pq) >= 1 && cap(pq) <= 140737488355328
+//@ pred wfPQ(pq inFlightPqueue) := bidx(pq, len(pq)) && heap(pq, len(pq)) && cap(pq) >= 1
 
 //@ func (pq inFlightPqueue) Swap(i, j int)
 //@   props C02 C04 C08
@@ -79,7 +79,7 @@ package nsqd
 //@   props C02 C04 C08
 //@   ghostparam gm *Message
 //@   inst up.m len(old(*pq)) + 1
-//@   requires pq != nil && x != nil && wfPQ(*pq) && cap(*pq) <= 70368744177664
+//@   requires pq != nil && x != nil && wfPQ(*pq) && cap(*pq) <= 4611686018427387903
 //@   requires[not-queued] forall k int :: {(*pq)[k]} 0 <= k && k < len(*pq) ==> (*pq)[k] != x
 //@   ensures wfPQ(*pq) && len(*pq) == old(len(*pq)) + 1
 //@   ensures[added] member(*pq, len(*pq), x)
@@ -122,3 +122,9 @@ package nsqd
 //@   ensures[members] result0 != nil && gm != result0 ==> (member(*pq, len(*pq), gm) <==> old(member(*pq, len(*pq), gm)))
 //@   ensures[others] result0 != nil && gm != result0 && !old(member(*pq, len(*pq), gm)) ==> gm.index == old(gm.index)
 //@   modifies *pq, elems(*pq), Message.index
+
+//@ func newInFlightPqueue(capacity int) inFlightPqueue
+//@   props C08 C02
+//@   requires capacity >= 0
+//@   ensures len(result) == 0 && cap(result) == capacity && fresh(result)
+//@   modifies
